@@ -30,7 +30,7 @@
 
 use proc_macro2::TokenStream;
 use quote::{quote, ToTokens};
-use std::{collections::BTreeMap, fmt::Write as _, fs, path::Path, process::exit};
+use std::{collections::{BTreeMap, BTreeSet}, fmt::Write as _, fs, path::Path, process::exit};
 use syn::{
     visit::{self, Visit},
     visit_mut::{self, VisitMut},
@@ -561,6 +561,79 @@ fn parse_filter(rest: &str) -> (String, Option<(bool, Vec<String>)>) {
     (rest.trim().to_string(), None)
 }
 
+/// identifiers in call position (`name (`), not preceded by `.`, `::` or `fn`
+fn called_idents(ts: proc_macro2::TokenStream, out: &mut Vec<String>) {
+    use proc_macro2::{Delimiter, TokenTree};
+    let toks: Vec<TokenTree> = ts.into_iter().collect();
+    for (i, t) in toks.iter().enumerate() {
+        match t {
+            TokenTree::Group(g) => called_idents(g.stream(), out),
+            TokenTree::Ident(id) => {
+                let next_is_call = matches!(toks.get(i + 1), Some(TokenTree::Group(g)) if g.delimiter() == Delimiter::Parenthesis);
+                let prev_ok = match i.checked_sub(1).and_then(|j| toks.get(j)) {
+                    Some(TokenTree::Punct(p)) => p.as_char() != '.' && p.as_char() != ':',
+                    Some(TokenTree::Ident(p)) => p != "fn",
+                    _ => true,
+                };
+                if next_is_call && prev_ok {
+                    out.push(id.to_string());
+                }
+            }
+            _ => {}
+        }
+    }
+}
+/// every name a host source file defines or imports (functions, types, macros, use leaves)
+fn collect_defined_names(text: &str, names: &mut BTreeSet<String>) {
+    use proc_macro2::TokenTree;
+    fn walk(ts: proc_macro2::TokenStream, names: &mut BTreeSet<String>) {
+        let toks: Vec<TokenTree> = ts.into_iter().collect();
+        for (i, t) in toks.iter().enumerate() {
+            match t {
+                TokenTree::Group(g) => walk(g.stream(), names),
+                TokenTree::Ident(id) => {
+                    let kw = id.to_string();
+                    if ["fn", "struct", "enum", "type", "const", "static", "trait", "macro_rules", "mod"].contains(&kw.as_str()) {
+                        // `macro_rules ! name`, otherwise `kw name`
+                        let mut j = i + 1;
+                        if let Some(TokenTree::Punct(p)) = toks.get(j) {
+                            if p.as_char() == '!' {
+                                j += 1;
+                            }
+                        }
+                        if let Some(TokenTree::Ident(n)) = toks.get(j) {
+                            names.insert(n.to_string());
+                        }
+                    }
+                    if kw == "use" {
+                        // every identifier up to the terminating `;` (over-approximation is fine)
+                        for t2 in &toks[i + 1..] {
+                            match t2 {
+                                TokenTree::Punct(p) if p.as_char() == ';' => break,
+                                TokenTree::Ident(n) => {
+                                    names.insert(n.to_string());
+                                }
+                                TokenTree::Group(g) => {
+                                    for t3 in g.stream() {
+                                        if let TokenTree::Ident(n) = t3 {
+                                            names.insert(n.to_string());
+                                        }
+                                    }
+                                }
+                                _ => {}
+                            }
+                        }
+                    }
+                }
+                _ => {}
+            }
+        }
+    }
+    if let Ok(ts) = text.parse::<proc_macro2::TokenStream>() {
+        walk(ts, names);
+    }
+}
+
 fn main() {
     let args: Vec<String> = std::env::args().collect();
     if args.len() != 4 {
@@ -576,6 +649,21 @@ fn main() {
     let mut cur_file: Option<String> = None;
     let mut out = Output::default();
     let mut index: Vec<String> = vec![];
+    // `autodeps`: a sliced function that calls a free function of the same source file which
+    // neither the host module nor an earlier slice defines gets that function sliced in as well
+    // (a refactoring that moves a comparison into a new helper must not blind the check)
+    let mut autodeps = false;
+    let mut emitted: BTreeSet<String> = BTreeSet::new();
+    let host_defs: BTreeSet<String> = {
+        let mut names = BTreeSet::new();
+        let host = Path::new(&args[2]).parent().map(|d| d.join("src")).unwrap_or_default();
+        for f in ["lib.rs", "proofs.rs", "db.rs"] {
+            if let Ok(text) = fs::read_to_string(host.join(f)) {
+                collect_defined_names(&text, &mut names);
+            }
+        }
+        names
+    };
 
     for (lineno, raw) in spec.lines().enumerate() {
         let line = raw.trim();
@@ -600,6 +688,10 @@ fn main() {
                         out.wrap_impl = None;
                     }
                 }
+                continue;
+            }
+            "autodeps" => {
+                autodeps = true;
                 continue;
             }
             "strip_derives" => {
@@ -911,6 +1003,37 @@ fn main() {
         }
         if out.items.len() == before {
             die(&format!("{ctx}: matched nothing in {}", src.path));
+        }
+        for it in &out.items[before..] {
+            if let Item::Fn(f) = it {
+                emitted.insert(f.sig.ident.to_string());
+            }
+        }
+        if autodeps {
+            let mut from = before;
+            loop {
+                let mut wanted: Vec<String> = vec![];
+                for it in &out.items[from..] {
+                    called_idents(it.to_token_stream(), &mut wanted);
+                }
+                from = out.items.len();
+                for name in wanted {
+                    if emitted.contains(&name) || host_defs.contains(&name) {
+                        continue;
+                    }
+                    for it in &src.file.items {
+                        if let Item::Fn(f) = it {
+                            if f.sig.ident == name && !is_cfg_test(&f.attrs) {
+                                emitted.insert(name.clone());
+                                out.items.push(it.clone());
+                            }
+                        }
+                    }
+                }
+                if out.items.len() == from {
+                    break;
+                }
+            }
         }
         for it in &out.items[before..] {
             let mut c = it.clone();
